@@ -27,6 +27,12 @@ for _s in ("cmp", "append", "count", "filter", "functor"):
     JOBS["bip-" + _s] = dict(module="MC_Builtins", constants={"Slice": _s}, subst=BIP_SUBST, invariants=BIP_INV,
                              timeout={"quick": 600, "thorough": 1800})
 
+LISTS_INV = ["MkWF", "MkContract", "MkCount", "RnShape", "RnConsistent", "Emit"]
+JOBS["lists-mklist"] = dict(module="MC_Lists", constants={"Slice": "mklist", "Bug_DropsEmptyTail": "FALSE"}, invariants=LISTS_INV,
+                            timeout={"quick": 600, "thorough": 1800})
+JOBS["lists-rename"] = dict(module="MC_Lists", constants={"Slice": "rename", "Bug_DropsEmptyTail": "FALSE"}, invariants=LISTS_INV,
+                            timeout={"quick": 600, "thorough": 1800})
+
 UNIFY_ASSUME = [
     "pairs whose unification needs an occurs check are generated but excluded (counted under excluded_cases)",
     "the universe is bounded: terms of depth <= 2 over 2 atoms, 1 integer, 2 floats, 3 variables, $_, f/1 g/2 h/0, lists of <= 3 elements with and without tail",
@@ -50,6 +56,13 @@ PROPS = {
     "C14": dict(jobs=["bip-cmp"], level="model_checking",
                 rule="every comparison predicate x every ordered pair of operands (integers incl. -2^63 and 2^62, floats incl. -0.0 and fractions, ASCII/space/non-ASCII atoms, non-constants), literally and through variable chains; distinct by (predicate, operands, prior)",
                 assumptions=["integers compared with floats are only generated where the i64 -> f64 conversion is exact", "named forms here; infix forms are covered by the syntax slices (C19/C20)"]),
+    "C15": dict(jobs=["lists-mklist", "lists-rename", "bip-append", "bip-filter"], level="model_checking",
+                rule="constructor: every element sequence up to length 5 over atoms, numbers, variables, $_, complex terms, empty / nested / tailed lists x vbar, stepped through the make_linked_list machine of Lists.tla; "
+                     "engine-built lists: every renamed term vector, append result and include/exclude result of the other slices, projected cell by cell with the well-formedness check",
+                assumptions=["a single-element sequence whose element is a list is outside the documented constructor contract", "parsed lists are checked by the syntax slices (C19)"]),
+    "C10": dict(jobs=["lists-rename", "unify-plain"], level="model_checking",
+                rule="every vector of 1-3 terms (clause-shaped: shared and distinct variable names, $_, empty / nested lists, tails, function terms) renamed from two counter values; plus every term pair of the unifier slice renamed and unified",
+                assumptions=["freshness in the middle of a search is checked by the solver trace slices"]),
     "C16": dict(jobs=["bip-append"], level="model_checking",
                 rule="append with 1-4 inputs from a universe of atoms, numbers, complex terms, bound variables, lists with nested / empty-list elements and bound tails, x 3 priors x several Out shapes",
                 assumptions=["unbound-variable inputs and lists with an unbound tail are outside the claim and excluded"]),
